@@ -1,6 +1,7 @@
 import Capella.Lemmas.Index
 import Capella.Lemmas.IndexUnique
 import Capella.Lemmas.IndexHref
+import Capella.Lemmas.IndexApi
 
 /-!
 # C03 — UUID and type lookups always agree with the actual model tree
@@ -52,6 +53,14 @@ theorem after_any_history_lookup_is_exact (ops : List Op) (l l' : Loader)
   have hu' := run_unique ops l l' hu hwu h
   exact ⟨fun f hf e he hk => lookup_complete l' k (fun f hf => (hc' f hf).1) hu' f hf e he hk,
          fun hk => Capella.Index.lookup_absent l' k (fun f hf => (hc' f hf).1) hk⟩
+
+/-- Deleting (a subtree and the link elements purged with it, each in its own fragment) keeps the
+loader consistent with unique ids; what is asked of the caller is only that each removed segment
+consists of elements of the fragment it is removed from. -/
+theorem deletion_keeps_invariant (segs : List (Nat × List Entry)) (l l' : Loader) (hi : Inv l)
+    (hw : WFRun l (segs.map (fun (fi, seg) => Op.detach fi seg)))
+    (h : apiDelete l segs = .ok l') : Inv l' :=
+  apiDelete_inv segs l l' hi hw h
 
 /-- Lookup is sound: whatever `by_uuid` returns is an element of a loaded fragment carrying that id. -/
 theorem lookup_returns_tree_element (l : Loader) (k : String) (n : Nat)
